@@ -39,6 +39,52 @@ def build(reg, src):
     reg.extra_checks.append(c19_commit.commit_check)
     from contracts import c19_db
     reg.extra_checks.append(c19_db.db_view_check)
+
+    # a table owns its frame: what .table is given, and what t?col hands out, shares no memory with it (the indexed commit writes
+    # the frame IN PLACE) - ownership typing of the real AST (pyvc/frames.py), pandas==3.0.0 Copy-on-Write contracts as in C16
+    def table_value_ownership(ctx):
+        import ast as _ast
+        from pyvc.frames import FrameAnalysis, is_operand_label
+        src = ctx['src']
+        fa = FrameAnalysis(src, {})
+        fa.extra_deep_fresh_methods = {'copy'}
+        fa.copy_on_write = True
+        fa.copying_constructors = {'DataFrame'}
+        fa.rows_are_views = True
+        rows = []
+        K1 = 'klongpy/db/sys_fn_db.py::Table.__init__'
+        sm = fa.summary(K1)
+        stores = [x for x in (sm.field_stores if sm else []) if x[0] == '_df']
+        for i, (attr, node, v, dicts) in enumerate(stores):
+            labels = sorted(l for l in v.all() if is_operand_label(l) and l.rstrip('*') == 'data')
+            rows.append(dict(name=f"{K1}#owns-its-rows._df[{i}]", ok=not labels, backend='ownership-typing', confirmed=False,
+                             detail=f"line {node.lineno}: `{_ast.unparse(node)[:90]}` " + ("stores a frame created here" if not labels else
+                                    f"stores a frame that may share memory with what the caller passed ({labels}): another table built from the same columns shares its rows")))
+        if not stores:
+            rows.append(dict(name=K1 + '#owns-its-rows.reachability', ok=False, undecided=True, backend='ownership-typing', detail='no store to self._df found'))
+        K2 = 'klongpy/db/sys_fn_db.py::Table.get'
+        sg = fa.summary(K2)
+        if sg is None or sg.ret is None:
+            rows.append(dict(name=K2 + '#hands-out-a-copy.function-present', ok=False, undecided=True, backend='ownership-typing', detail='not found'))
+        else:
+            outer = sorted(l for l in sg.ret.flat().outer if not l.startswith('@global:'))
+            rows.append(dict(name=K2 + '#hands-out-a-copy', ok=not outer, backend='ownership-typing', confirmed=False,
+                             detail='the column handed out is a new array' if not outer else f"t?col may hand out a view of the table's own frame ({outer}): a later upsert changes a value read earlier"))
+        bad = [r for r in rows if not r['ok'] and not r.get('undecided')]
+        if bad:
+            from pyvc.run import run_replay
+            import replay.c19 as rp2
+            r = run_replay(rp2.replay_table_value_ownership, {}, bad[0]['name'], timeout_s=60)
+            for b in bad:
+                b['confirmed'] = bool(r.get('confirmed'))
+                b['replay'] = dict(result=r)
+                if r.get('confirmed'):
+                    b['detail'] += f" | real code: {r.get('detail')}"
+        for kk in (K1, K2):
+            ctx['eng'].verified[kk + ' (row ownership)'] = dict(sha=src.sha(src.find(kk)), backend='ownership-typing')
+        return rows
+    table_value_ownership.__name__ = 'table-value-ownership'
+    reg.extra_checks.append(table_value_ownership)
     reg.assumptions += [
         "pandas (DataFrame construction, concat, sort_index, drop_duplicates, loc upsert, get, columns) and DuckDB are opaque: row order, "
         "uniqueness per key and SQL results rest on their semantics and are NOT decided",
